@@ -935,6 +935,42 @@ func famBind(r *Rng, o *Out, tier string) {
 				o.emit("(const sound)", "sound")
 			}
 		}
+		// binding to a PARSED parent object that is attenuated between two binds (BindToParentMacaroon): each bind
+		// names the parent as it is at that moment
+		for k := 0; k < 3; k++ {
+			pi := r.Intn(len(hs))
+			pm, err := macaroon.Decode(hs[pi].bytes)
+			if err != nil {
+				continue
+			}
+			_, d1, _ := macaroon.DischargeTicket(ka, "https://auth.example", it.tp.ticket)
+			_, d2, _ := macaroon.DischargeTicket(ka, "https://auth.example", it.tp.ticket)
+			if d1.BindToParentMacaroon(pm) != nil || pm.Add(r.plainCav(1)) != nil || d2.BindToParentMacaroon(pm) != nil {
+				continue
+			}
+			child := mustEnc(pm)
+			if bytes.Equal(child, hs[pi].bytes) {
+				continue // the added caveat was already present: Add was a no-op, parent and child are the same token
+			}
+			o.count("bind.parsedParentMutated")
+			for _, tc := range []struct {
+				tok  []byte
+				d    *macaroon.Macaroon
+				want bool
+				what string
+			}{{hs[pi].bytes, d1, true, "first-bind/parent"}, {child, d1, true, "first-bind/child"},
+				{child, d2, true, "second-bind/child"}, {hs[pi].bytes, d2, false, "second-bind/parent-before-add"}} {
+				obs := emitVerify(o, key, tc.tok, with(mustEnc(tc.d)), nil)
+				if obs == "err:unmodelled" {
+					continue
+				}
+				if strings.HasPrefix(obs, "ok") != tc.want {
+					o.emit("(const sound)", "parsed-parent-binding-wrong:"+tc.what)
+				} else {
+					o.emit("(const sound)", "sound")
+				}
+			}
+		}
 		// several bindings: all must hold
 		for k := 0; k < 10; k++ {
 			b1, b2 := r.Intn(len(hs)), r.Intn(len(hs))
